@@ -832,12 +832,16 @@ theorem collectListener_hostnames (f : Flags) (m : Mesh) (svcs : List Svc) (cfgN
     HostsLE acc (collectListener f m svcs cfgNs acc ilw) ∧
     HostsLE ilw.services (collectListener f m svcs cfgNs acc ilw) := by
   unfold collectListener
-  have hvs : ∀ a : List Svc, HostsLE a (ilw.vss.foldl (fun a v => (vsDestinations v cfgNs).foldl (addVSDest f m svcs cfgNs ilw.matchPort) a) a) := by
+  have hvs : ∀ a : List Svc, HostsLE a (ilw.vss.foldl (fun a v => (vsDestinations v cfgNs).foldl (addVSDestX f m svcs cfgNs ilw.hosts ilw.matchPort) a) a) := by
     intro a
     apply hostsLE_foldl
     intro a' v
     apply hostsLE_foldl
-    intro a'' d; exact hostsLE_addVSDest f m svcs cfgNs ilw.matchPort a'' d
+    intro a'' d
+    unfold addVSDestX
+    split
+    · exact HostsLE.refl _
+    · exact hostsLE_addVSDest f m svcs cfgNs ilw.matchPort a'' d
   obtain ⟨h1, h2⟩ := hostname_foldl_appendSvc ilw.services acc
   exact ⟨HostsLE.trans h1 (hvs _), HostsLE.trans h2 (hvs _)⟩
 
